@@ -179,8 +179,8 @@ Qed.
 Lemma ObsInv_ingest_at_f fx fn U w j sender ops :
   InvU U w -> ObsInv U w -> (forall o, In o ops -> U o) -> ObsInv U (ingest_at_f fx fn w j sender ops).
 Proof.
-  intros I OI Hops. unfold ingest_at_f. destruct (bool_decide (fn = j)); [|apply ObsInv_ingest_at; assumption].
-  destruct (ingest_at_fail_cases fx w j sender ops) as [->|[E1 _]]; [apply ObsInv_ingest_at; assumption|].
+  intros I OI Hops. unfold ingest_at_f. destruct (bool_decide (f_node fn = j)); [|apply ObsInv_ingest_at; assumption].
+  destruct (ingest_at_fail_cases fx fn w j sender ops) as [->|[E1 _]]; [apply ObsInv_ingest_at; assumption|].
   eapply (ObsInv_same_logs U w); [|apply world_le_ext; symmetry; exact E1|exact OI].
   intros n nd' H. rewrite E1 in H. eauto.
 Qed.
@@ -245,11 +245,21 @@ Proof.
   exists nd. split; [exact H0|congruence].
 Qed.
 
+Lemma restart_back w n m ndm :
+  w_nodes (restart w n) !! m = Some ndm -> exists nd0, w_nodes w !! m = Some nd0 /\ n_log ndm = n_log nd0.
+Proof.
+  unfold restart. destruct (w_nodes w !! n) as [nd|] eqn:En; [|eauto].
+  intros Hm. destruct (upd_back w n nd _ (w_msgs w) (w_fbs w) m ndm En Hm) as (nd0 & H0 & Eq & Ne).
+  exists nd0. split; [exact H0|]. destruct (decide (m = n)) as [->|Hmn].
+  - destruct (Eq eq_refl) as [-> ->]. reflexivity.
+  - rewrite (Ne Hmn). reflexivity.
+Qed.
+
 Theorem ObsInv_step fx T U w s :
   InvU U w -> ObsInv U w -> ok_step U w s -> ObsInv (grow U (new_op w s)) (step fx T w s).1.
 Proof.
   intros I OI Hok. destruct (step_preserves fx T U w s I Hok) as [_ L].
-  destruct s as [n k v lease|n k|n sender b|n|m n|i j late|f| |n|n p|n p|n p|n s filter|fn g|n s]; simpl in *.
+  destruct s as [n k v lease|n k|n sender b|n|m n|i j late|f| |n|n p|n p|n p|n s filter|fn g|n k lease del|n s]; simpl in *.
   - destruct (ObsInv_write U w n k v lease false I OI Hok) as [X1 X2]. destruct fx; assumption.
   - destruct (ObsInv_write U w n k 0 0 true I OI Hok) as [X1 X2]. destruct fx; assumption.
   - apply ObsInv_grow_None, ObsInv_ingest_at; assumption.
@@ -304,6 +314,8 @@ Proof.
       destruct late.
       * apply ObsInv_ingest_at_f; [exact I1|exact O1|]. intros x Hx. exact (InvU_payload U _ j x I1 Hx).
       * apply ObsInv_ingest_at_f; [exact I1|exact O1|]. intros x Hx. exact (InvU_payload U w j x I Hx).
+  - apply ObsInv_grow_None. eapply (ObsInv_same_logs U w); [|exact L|exact OI].
+    destruct (write_cf_cases w n k lease del) as [->|[lh ->]]; [eauto|apply restart_back].
   - apply ObsInv_grow_None. eapply (ObsInv_same_logs U w); [|exact L|exact OI].
     unfold stall. destruct (w_nodes w !! n) as [nd|] eqn:En; [|eauto].
     intros m ndm Hm. destruct (upd_back w n nd _ (w_msgs w) (w_fbs w) m ndm En Hm) as (nd0 & H0 & Eq & Ne).
@@ -439,8 +451,8 @@ Qed.
 
 Lemma log_rel_ingest_at_f fx fn w j sender ops : log_rel w (ingest_at_f fx fn w j sender ops).
 Proof.
-  unfold ingest_at_f. destruct (bool_decide (fn = j)); [|apply log_rel_ingest_at].
-  destruct (ingest_at_fail_cases fx w j sender ops) as [->|[E1 _]]; [apply log_rel_ingest_at|].
+  unfold ingest_at_f. destruct (bool_decide (f_node fn = j)); [|apply log_rel_ingest_at].
+  destruct (ingest_at_fail_cases fx fn w j sender ops) as [->|[E1 _]]; [apply log_rel_ingest_at|].
   apply log_rel_ext. symmetry. exact E1.
 Qed.
 
@@ -475,7 +487,7 @@ Definition applies_recovery (s : step_t) : bool :=
 
 Theorem step_complete fx T w s : applies_recovery s = false -> log_rel w (step fx T w s).1.
 Proof.
-  intros Hs. destruct s as [n k v lease|n k|n sender b|n|m n|i j late|f| |n|n p|n p|n p|n s filter|fn g|n s]; simpl in *; try discriminate.
+  intros Hs. destruct s as [n k v lease|n k|n sender b|n|m n|i j late|f| |n|n p|n p|n p|n s filter|fn g|n k lease del|n s]; simpl in *; try discriminate.
   - apply log_rel_write.
   - apply log_rel_write.
   - apply log_rel_ingest_at.
@@ -502,6 +514,9 @@ Proof.
       destruct (bool_decide (i = j)); [apply log_rel_refl|].
       destruct (payload w i) as [|o pl]; [apply log_rel_refl|].
       destruct late; (eapply log_rel_trans; [apply log_rel_ingest_at_f|apply log_rel_ingest_at_f]).
+  - destruct (write_cf_cases w n k lease del) as [->|[lh ->]]; [apply log_rel_refl|].
+    unfold restart. destruct (w_nodes w !! lh) as [nd|] eqn:En; [|apply log_rel_refl].
+    apply (log_rel_upd_same w lh nd); [exact En|reflexivity|reflexivity].
   - unfold stall. destruct (w_nodes w !! n) as [nd|] eqn:En; [|apply log_rel_refl].
     apply (log_rel_upd_same w n nd); [exact En|reflexivity|reflexivity].
 Qed.
